@@ -561,15 +561,16 @@ def big_script(rng, pat, n, b, half):
     if half == 0:
         ev += [{'op': 'MaskCyc', 'r': 'r1', 'rd': 'r2', 'pat': MASKPATS[0]},
                {'op': 'Mask', 'r': 'r1', 'rd': 'r3', 'mask': [rng.random() < 0.5 for _ in range(n)]},
-               {'op': 'Slice', 'r': 'r1', 'rd': 'r2', 'lo': bound(), 'hi': bound(), 'step': rng.choice([1, 2, 3, -1, -2, 7])},
-               {'op': 'Take', 'r': 'r1', 'rd': 'r3', 'pos': [rng.randint(-n, n - 1) for _ in range(rng.choice([3, 17, 65, 70]))]},
-               {'op': 'ConcatN', 'ops': [['r', 'r2', []], ['rec', '', [['a', val()], ['z', val()]]], ['r', 'r1', []], ['r', 'r3', []]], 'rd': 'r3'}]
+               {'op': 'Slice', 'r': 'r1', 'rd': 'r2', 'lo': [1, 1], 'hi': [1, -1], 'step': rng.choice([1, 2, 3])},          # d[1:-1:step]: never empty here
+               {'op': 'Take', 'r': 'r1', 'rd': 'r3', 'pos': [rng.randint(-n, n - 1) for _ in range(65 + n % 7)]},
+               {'op': 'ConcatN', 'ops': [['r', 'r2', []], ['rec', '', [['a', val()], ['z', val()]]], ['r', 'r1', []], ['r', 'r3', []]], 'rd': 'r3', 'k': n % 2}]     # k: concat(*xs) / concat(list)
     else:
         ev += [{'op': 'NoFilter', 'r': 'r1', 'rd': 'r2', 'f': rng.choice(['inc', 'exc'])},
                {'op': 'MaskCyc', 'r': 'r2', 'rd': 'r3', 'pat': rng.choice(MASKPATS[1:])},
                {'op': 'SetColCyc', 'r': 'r1', 'c': rng.choice(['a', 'e']), 'pat': [val() for _ in range(rng.choice([2, 3, 5]))]},
                {'op': 'MaskCyc', 'r': 'r1', 'rd': 'r2', 'pat': MASKPATS[1]},
                {'op': 'Slice', 'r': 'r1', 'rd': 'r3', 'lo': bound(), 'hi': bound(), 'step': rng.choice([1, 2, -1, 5])},
+               {'op': 'Slice', 'r': 'r1', 'rd': 'r3', 'lo': [0, 0], 'hi': [0, 0], 'step': -1},
                {'op': 'IAddRecord', 'r': 'r1', 'rd': 'r1', 'rec': [['a', val()], ['b', val()]]},
                {'op': 'Mask', 'r': 'r1', 'rd': 'r2', 'mask': [rng.random() < 0.8 for _ in range(n + 1)]}]
     return ev
@@ -592,7 +593,7 @@ def record(ctx, events_or_gen, nrandom=0, cap=None):
             if e['op'] in grows and grows[e['op']]() > cap:
                 e = {'op': 'Copy', 'r': sorted(regs)[0], 'rd': e['rd']}
         e = dict(e)
-        e['k'] = ctx.rng.randint(0, 11)            # which spelling of the call (kept for replay)
+        e['k'] = e['k'] if 'k' in e else ctx.rng.randint(0, 11)            # which spelling of the call (kept for replay; scripts may fix it)
         e['out'] = step(regs, args, e, ids, e['k'])
         e['post'] = post(regs, ids, args)
         events.append(e)
@@ -603,7 +604,7 @@ def big_histories(ctx):
     """(i) scaled patterns: sizes around the thresholds a change could hide behind; (ii) one call with 17 / 65 / 130 operands;
     (iii) tables of 17 / 65 / 130 columns; (iv) long histories: 70 / 130 / 260 calls in one session on small tables"""
     rng = ctx.rng
-    sizes = [(17, 5), (65, 5), (66, 2), (101, 2), (130, 3), (257, 2), (260, 1)] if ctx.quick else [(17, 10), (64, 5), (65, 10), (101, 10), (130, 10), (257, 10), (260, 5), (1025, 3)]
+    sizes = [(17, 5), (65, 5), (66, 2), (101, 2), (130, 2), (257, 2), (260, 2)] if ctx.quick else [(17, 10), (64, 5), (65, 10), (101, 10), (130, 10), (257, 10), (260, 5), (1025, 3)]
     obs = []
     for n, count in sizes:
         for j in range(count):
@@ -617,8 +618,10 @@ def big_histories(ctx):
     for nops in ([17, 65] if ctx.quick else [17, 65, 130, 257]):          # members of one argument list
         unit = [['r', 'r1', []], ['r', 'r2', []], ['rec', '', [['b', I2], ['c', D2]]], ['r', 'r1', []], ['rec', '', [['a', NONE]]]]
         ev = [{'op': 'Bind', 'av': NO_ARGS}, {'op': 'New', 'rd': 'r1', 'seed': A}, {'op': 'New', 'rd': 'r2', 'seed': B},
-              {'op': 'ConcatN', 'ops': [unit[i % len(unit)] for i in range(nops)], 'rd': 'r3'},
-              {'op': 'ConcatN', 'ops': [['r', 'r2', []]] * nops, 'rd': 'r3'}]
+              {'op': 'ConcatN', 'ops': [unit[i % len(unit)] for i in range(nops)], 'rd': 'r3', 'k': 0},          # concat(*xs)
+              {'op': 'ConcatN', 'ops': [unit[i % len(unit)] for i in range(nops)], 'rd': 'r3', 'k': 1},          # concat(list)
+              {'op': 'ConcatN', 'ops': [unit[i % len(unit)] for i in range(nops)], 'rd': 'r3', 'k': 3},          # x1 + x2 + ... (chained)
+              {'op': 'ConcatN', 'ops': [['r', 'r2', []]] * nops, 'rd': 'r3', 'k': 4}]                            # x1.concat(*xs), one table nops times
         obs.append(record(ctx, ev)); ctx.note(('operands', nops))
     for w in ([17, 65, 130] if ctx.quick else [17, 65, 130, 257, 1025]):          # number of columns (keys of the table, members of the lists of names)
         hdrs = ['c%i' % j for j in range(w)]
